@@ -8,7 +8,8 @@ quiescence barriers, and the moment the consumer starts reading.  Stream i carri
 from __future__ import annotations
 
 import asyncio
-from datetime import timedelta
+from datetime import datetime, timedelta, timezone
+from zoneinfo import ZoneInfo
 from typing import Any
 
 from hypothesis import strategies as st
@@ -100,7 +101,9 @@ def _case(draw: Any, max_ops: int, max_first: int) -> dict[str, Any]:
     # the consumer starts before any send, somewhere in the middle, or after everything was sent
     pos = draw(st.sampled_from([0, 0, len(ops) // 4, len(ops) // 2, len(ops) // 2, (3 * len(ops)) // 4, len(ops)]))
     ops.insert(pos, ["start"])
-    return {"route": route, "n": n, "first": first, "ops": ops}
+    # a fifth of the generic cases: some streams stamp their samples in a daylight-saving zone and the run crosses the switch
+    zones = [draw(st.booleans()) for _ in range(n)] if draw(st.integers(0, 4)) == 0 else None
+    return {"route": route, "n": n, "first": first, "ops": ops, "dst_streams": zones}
 
 
 def strategy(tier: str, pid: str = "C06") -> st.SearchStrategy[Any]:
@@ -119,6 +122,12 @@ def run_case(case: Any, pid: str) -> Verdict:
     v.labels.add(route if route in ("nested",) else ("three_phase" if route == "3phase" else "route_" + route))
     cap = 256 if route == "builder" else 50
     state: dict[str, Any] = {"lead_at_start": 0, "started_at": None}
+    dst_streams = case.get("dst_streams")
+    # with daylight-saving streams the timestamps start 3 s before the switch of 2024-03-31 01:00 UTC
+    base = datetime(2024, 3, 31, 0, 59, 57, tzinfo=timezone.utc) if dst_streams and any(dst_streams) else world.T0
+    zone_of: list[Any] = [ZoneInfo("Europe/Berlin") if dst_streams and dst_streams[i] else timezone.utc for i in range(n)]
+    if base != world.T0:
+        v.labels.add("streams_stamped_in_a_zone_across_a_dst_switch")
     outputs: dict[str, list[Any]] = {"main": [], "late": []}
     sent = [0] * n
 
@@ -189,7 +198,7 @@ def run_case(case: Any, pid: str) -> Verdict:
                 if sent[i] >= (cap - 1 if not case.get("long_lag") else 200):
                     continue
                 k = first[i] + sent[i]
-                await senders[i].send(Sample(world.T0 + timedelta(seconds=k), Quantity(_val(i, k))))
+                await senders[i].send(Sample((base + timedelta(seconds=k)).astimezone(zone_of[i]), Quantity(_val(i, k))))
                 sent[i] += 1
             elif op[0] == "settle":
                 await world.settle()
@@ -209,7 +218,7 @@ def run_case(case: Any, pid: str) -> Verdict:
     world.run(scenario)
 
     def tick_of(sample: Any) -> float:
-        return (sample.timestamp - world.T0).total_seconds()
+        return (sample.timestamp - base).total_seconds()
 
     def value_of(sample: Any) -> Any:
         if route == "3phase":
